@@ -2,7 +2,16 @@ module github.com/IrineSistiana/mosproxy/verifharness
 
 go 1.22.1
 
-require github.com/IrineSistiana/mosproxy v0.0.0
+require (
+	github.com/IrineSistiana/mosproxy v0.0.0
+	github.com/miekg/dns v1.1.58
+	github.com/panjf2000/gnet/v2 v2.3.6
+	github.com/quic-go/quic-go v0.42.0
+	github.com/rs/zerolog v1.32.0
+	golang.org/x/net v0.22.0
+	golang.org/x/sys v0.18.0
+	gopkg.in/yaml.v3 v3.0.1
+)
 
 require (
 	github.com/IrineSistiana/bytespool v0.0.0-20240303022030-cfcf97e7141f // indirect
@@ -18,16 +27,13 @@ require (
 	github.com/mattn/go-isatty v0.0.20 // indirect
 	github.com/maypok86/otter v1.2.0 // indirect
 	github.com/mitchellh/mapstructure v1.5.0 // indirect
-	github.com/panjf2000/gnet/v2 v2.3.6 // indirect
 	github.com/prometheus/client_golang v1.19.0 // indirect
 	github.com/prometheus/client_model v0.6.0 // indirect
 	github.com/prometheus/common v0.51.1 // indirect
 	github.com/prometheus/procfs v0.13.0 // indirect
 	github.com/puzpuzpuz/xsync/v3 v3.1.0 // indirect
 	github.com/quic-go/qpack v0.4.0 // indirect
-	github.com/quic-go/quic-go v0.42.0 // indirect
 	github.com/redis/rueidis v1.0.32 // indirect
-	github.com/rs/zerolog v1.32.0 // indirect
 	github.com/spf13/cobra v1.8.0 // indirect
 	github.com/spf13/pflag v1.0.5 // indirect
 	github.com/valyala/bytebufferpool v1.0.0 // indirect
@@ -36,14 +42,11 @@ require (
 	go.uber.org/zap v1.27.0 // indirect
 	golang.org/x/crypto v0.21.0 // indirect
 	golang.org/x/exp v0.0.0-20240325151524-a685a6edb6d8 // indirect
-	golang.org/x/net v0.22.0 // indirect
 	golang.org/x/sync v0.6.0 // indirect
-	golang.org/x/sys v0.18.0 // indirect
 	golang.org/x/text v0.14.0 // indirect
 	golang.org/x/time v0.5.0 // indirect
 	google.golang.org/protobuf v1.33.0 // indirect
 	gopkg.in/natefinch/lumberjack.v2 v2.2.1 // indirect
-	gopkg.in/yaml.v3 v3.0.1 // indirect
 )
 
 replace github.com/IrineSistiana/mosproxy => /repo
